@@ -11,7 +11,7 @@ RULE = ("Accepted executable / type-system / mixed documents and standalone valu
         "{'', ' ', '\\t', '  ', '\\t '} through print_ast and ASTPrinter. Oracle: print does not raise; printed text "
         "is accepted; parse(print(t)) == t modulo positions (description block flag ignored); two prints are "
         "identical; print(parse(print(t))) == print(t). Non-trivial: the document contains a string value or "
-        "description, or >= 2 definitions; distinct = (text, indent). Thorough tier adds a coverage-guided atheris/libFuzzer campaign per shard (py_gql instrumented, libFuzzer seed derived from VERIF_SEED, GraphQL token dictionary, seeded corpus on even shards and empty corpus on odd ones, inputs <= 160 bytes; findings are counted and kept, never fatal, so the campaign goes on) with the same oracle inside the target; its executions are part of `evaluations`, its distinct non-trivial inputs part of `distinct_nontrivial`.")
+        "description, or >= 2 definitions; distinct = (text, indent). Plus 60 fixed *deep* documents (selection sets, inline fragments, list values, object values, list types, 40-330 levels): whatever the parser accepts, print_ast must print and the text must parse back to an equal tree. Thorough tier adds a coverage-guided atheris/libFuzzer campaign per shard (py_gql instrumented, libFuzzer seed derived from VERIF_SEED, GraphQL token dictionary, seeded corpus on even shards and empty corpus on odd ones, inputs <= 160 bytes; findings are counted and kept, never fatal, so the campaign goes on) with the same oracle inside the target; its executions are part of `evaluations`, its distinct non-trivial inputs part of `distinct_nontrivial`.")
 ASSUMPTIONS = [
     "Only texts the library itself accepts are used (acceptance is C01's subject).",
     "For description strings only `value` is compared, not the `block` flag (DESIGN.md C03).",
